@@ -260,9 +260,13 @@ def getstate_slots(ctx):
             assigned = init_assigned(repo, c) & slots
             src = norm(gs.node)
             covered = {s for s in slots if f"'{s}'" in src or f'"{s}"' in src or f"self.{s}" in src}
+            ss = c.methods.get("__setstate__")
+            if ss is not None:
+                # a slot that __setstate__ re-initialises itself (a cache) need not travel in the state
+                covered |= {n.attr for n in ast.walk(ss.node) if isinstance(n, ast.Attribute) and isinstance(n.ctx, ast.Store)
+                            and isinstance(n.value, ast.Name) and n.value.id == "self"}
             uses_slots_generically = "__slots__" in src
             missing = sorted(assigned - covered) if not uses_slots_generically else []
-            ss = c.methods.get("__setstate__")
             ctx.ob("R14.4", f"{c.name}.__getstate__ covers the slots {sorted(assigned)}", not missing,
                    detail={"slots_in_mro": sorted(slots), "assigned_in_init": sorted(assigned), "missing_from_state": missing},
                    where=gs.fq, construct=f"{c.name}.__getstate__", loc=loc(gs, gs.node),
